@@ -54,12 +54,25 @@ impl DatagramLightweight
         self,
         _: Option<&autd3_core::geometry::Geometry>,
     ) -> Result<Datagram, AUTDProtoBufError> {
+        // The message carries whole microseconds in 32 bits. A time that does not fit is not a
+        // multiple of the ultrasound period the device could accept and must not be rounded to one.
+        let micros = |value: Duration| -> Result<u32, AUTDProtoBufError> {
+            if value.subsec_nanos() % 1000 != 0 {
+                return Err(
+                    autd3_driver::error::AUTDDriverError::InvalidSilencerCompletionTime(value)
+                        .into(),
+                );
+            }
+            u32::try_from(value.as_micros()).map_err(|_| {
+                autd3_driver::error::AUTDDriverError::SilencerCompletionTimeOutOfRange(value).into()
+            })
+        };
         Ok(Datagram {
             datagram: Some(datagram::Datagram::Silencer(Silencer {
                 config: Some(silencer::Config::FixedCompletionTime(
                     silencer::FixedCompletionTime {
-                        value_intensity: Some(self.config.intensity.as_micros() as _),
-                        value_phase: Some(self.config.phase.as_micros() as _),
+                        value_intensity: Some(micros(self.config.intensity)?),
+                        value_phase: Some(micros(self.config.phase)?),
                         strict_mode: Some(self.config.strict_mode),
                     },
                 )),
